@@ -507,6 +507,12 @@ class Live(object):
         del self.spy[:]
         chan = inp['target'] != 'test'
         cmd = {'reply': 'vtlong', 'action': 'vtlong', 'error': 'vterr', 'nested': 'vtarg [vtlong]'}[shape]
+        pre = inp.get('pre')
+        if pre and shape in ('reply', 'action'):
+            # two replies in ONE command invocation (same proxy object): the first one unchecked
+            cmd = 'vttwo'
+            self.vp.VtLong.TEXT0 = pre['text']
+            self.vp.VtLong.KW0 = dict(pre['kw'])
         b.ircutils.wrap = self.spy_wrap
         import signal
 
@@ -587,7 +593,7 @@ def eff_flag(inp, k):
     return bool(inp['kw'].get(k) or (inp.get('shape') == 'nested' and inp.get('kwinner', {}).get(k)))
 
 
-def call_fields(L, inp):
+def call_fields(L, inp, kw_override=None):
     """the raw call (keywords, message, configuration tables) for the model; everything that depends on the
     bot's state (is it a channel, is the nick known) is asked to the real code BEFORE the command runs"""
     b = L.b
@@ -597,12 +603,14 @@ def call_fields(L, inp):
     kw = dict(inp['kw'])
     if inp.get('shape') == 'action':
         kw['action'] = True
+    if kw_override is not None:
+        kw = dict(kw_override)
     nick = inp['prefix'].split('!', 1)[0]
     target = L.target(inp)
 
     def pub(x):
         return bool(irc.isChannel(irc.stripChannelPrefix(x)))
-    to = eff_to(inp)
+    to = eff_to(inp) if kw_override is None else kw.get('to')
     tohm = None
     if to:
         try:
@@ -616,7 +624,7 @@ def call_fields(L, inp):
 
     def kwf(d):
         return [wire.enc_opt(d.get('to')), optb(d.get('notice')), optb(d.get('private')), optb(d.get('prefixNick')),
-                optb(d.get('action'))]
+                optb(d.get('action')), optb(d.get('noLengthCheck'))]
     ch = cfg.get('chan'); net = cfg.get('net'); nch = cfg.get('netchan')
     nested = inp.get('shape') == 'nested'
     stripped = irc.stripChannelPrefix(target)
@@ -652,7 +660,13 @@ def live_case(I, L, inp, kind='live'):
             inp.pop('actions', None)
         except KeyError:
             inp.pop('owner', None)
+    has_pre = bool(inp.get('pre')) and inp.get('shape', 'reply') in ('reply', 'action')
+    pre_call = call_fields(L, inp, kw_override=inp['pre']['kw']) if has_pre else None
     first, stored, steps, spy, T = L.run(inp, T)
+    pre_msgs = []
+    if has_pre:
+        # the first reply of the invocation: one unchecked message, then the reply under test
+        pre_msgs, first = first[:1], first[1:]
     cfg = inp['cfg']
     shape = inp.get('shape', 'reply')
     owner = inp.get('owner', 'A')
@@ -675,6 +689,14 @@ def live_case(I, L, inp, kind='live'):
     suffix_re = re.compile(r' \x02\((\d+) (%s|%s)\)\x02$' % (re.escape(T['sing']), re.escape(T['plur'])))
     # ---- canonical implementation output
     parts = []
+    if has_pre:
+        tags.append('live:two-replies-one-invocation')
+        parts.append('pre\t' + enc_msgs(pre_msgs))
+        pk = inp['pre']['kw']
+        want_pre = ('\x01ACTION %s\x01' % inp['pre']['text']) if pk.get('action') else inp['pre']['text']
+        if len(pre_msgs) != 1 or not pre_msgs[0].args[1].endswith(want_pre):
+            fails.append((None, 'the first reply of the invocation came out as %r' % [str(m) for m in pre_msgs]))
+    if inp['kw'].get('sendImmediately'): tags.append('live:sendImmediately')
     if unchecked:
         parts.append('unchecked')
     elif shape == 'error':
@@ -865,7 +887,10 @@ def live_case(I, L, inp, kind='live'):
                 ch = I.chunks(wire.dec(f[1]))
             else:
                 ch = []
-            lines = ['clear', 'reply\t%s\t%s\t%s\t%s' % (wire.enc(safe_full), wire.enc_list(ch), nested, '\t'.join(call))]
+            lines = ['clear']
+            if has_pre:
+                lines.append('reply\t%s\t-\t~\t%s' % (wire.enc(inp['pre']['text']), '\t'.join(pre_call)))
+            lines.append('reply\t%s\t%s\t%s\t%s' % (wire.enc(safe_full), wire.enc_list(ch), nested, '\t'.join(call)))
         for (w, nickarg, code, real) in steps:
             lines.append('more\t%d\t%s\t%s' % (cfg['batch'], wire.enc(prefixes[w].split('!', 1)[1]), wire.enc_opt(nickarg)))
         return lines
@@ -873,6 +898,11 @@ def live_case(I, L, inp, kind='live'):
     def combine(prep_out, outs):
         if shape == 'error':
             return '\n'.join(['error', prep_out] + outs[1:])
+        pre_part = []
+        if has_pre:
+            fp = outs[1].split('\t')     # outs: clear, pre reply, reply, more*
+            pre_part = ['pre\t' + (fp[1] if len(fp) > 1 else outs[1])]
+            outs = [outs[0]] + outs[2:]
         f = outs[1].split('\t')     # outs: clear, reply, more*
         if f[0] == 'sent' and len(f) == 5:
             if unchecked:
@@ -882,8 +912,8 @@ def live_case(I, L, inp, kind='live'):
             # what is stored is looked up by the harness under the owner's hostmask
             own = prefixes[owner].split('!', 1)[1]
             stored_m = f[2] if (f[2] == '~' or wire.dec(f[4]).lower() == own.lower()) else '~'
-            return '\n'.join([head, 'sent\t%s\t%s' % (f[1], stored_m)] + outs[2:])
-        return '\n'.join([prep_out] + outs)
+            return '\n'.join(pre_part + [head, 'sent\t%s\t%s' % (f[1], stored_m)] + outs[2:])
+        return '\n'.join(pre_part + [prep_out] + outs)
     return case, prep_line, phase2, combine
 
 
@@ -986,6 +1016,14 @@ def gen_live_input(r, thorough=False):
         inp['kwinner'] = kwinner
     if shape != 'reply':
         inp['shape'] = shape
+    if shape in ('reply', 'action') and r.random() < 0.15:
+        kw['sendImmediately'] = True       # irc.sendMsg: the fast queue of Irc.takeMsg
+    if shape == 'reply' and r.random() < 0.15:
+        # an earlier reply in the same command invocation, not length-checked (action / noLengthCheck)
+        pk = r.choice([{'action': True}, {'noLengthCheck': True}, {'action': True, 'prefixNick': False}])
+        if kw.get('sendImmediately'):
+            pk = dict(pk, sendImmediately=True)
+        inp['pre'] = {'text': r.choice(['waves', 'one moment', 'is thinking']), 'kw': pk}
     if r.random() < 0.45 and 'to' not in kw and 'to' not in kwinner and shape in ('reply', 'nested'):
         # a second caller (other user@host) using `more <A>`, sometimes a third one sharing A's user@host
         inp['prefixC'] = '%s!%s' % (r.choice(['carl', 'al_away']), prefix.split('!', 1)[1])
